@@ -156,6 +156,8 @@ namespace occa {
       if (buffer) delete buffer;
 
       buffer = makeBuffer();
+      // The pool owns its backing buffer: the device must not free it behind the pool's back
+      modeDevice->removeMemoryRef(buffer);
       buffer->malloc(alignedBytes);
       size = alignedBytes;
 
@@ -171,6 +173,8 @@ namespace occa {
       packing the space in the process
       */
       modeBuffer_t* newBuffer = makeBuffer();
+      // The pool owns its backing buffer: the device must not free it behind the pool's back
+      modeDevice->removeMemoryRef(newBuffer);
       newBuffer->malloc(alignedBytes);
 
       modeDevice->bytesAllocated += alignedBytes;
@@ -288,6 +292,8 @@ namespace occa {
 
       /*Make a new buffer*/
       modeBuffer_t* newBuffer = makeBuffer();
+      // The pool owns its backing buffer: the device must not free it behind the pool's back
+      modeDevice->removeMemoryRef(newBuffer);
       newBuffer->malloc(newReserved);
 
       modeDevice->bytesAllocated += newReserved;
